@@ -260,6 +260,7 @@ fn explore_tree(
         fault: None,
         min_frontier: 64,
         record: true,
+        garbage: false,
     };
     let v = V {
         rep,
